@@ -238,7 +238,129 @@ def gen_ttl(seed, ncases):
     return cases
 
 
+def gen_dups(seed, ncases):
+    """One ZADD naming the same member several times (the later pair sees the effect of the earlier
+    one), with every option, on new and existing keys, mixed with other members."""
+    r = random.Random(seed ^ 0xD0B1)
+    cases = []
+    for i in range(ncases):
+        c = Case("c12d_%d_%d" % (seed, i))
+        key = pick(r, [b"z", b"Z", b"dd"])
+        if r.random() < 0.6:
+            c.cmd([b"zadd", key] + [x for v in range(r.randrange(1, 9)) for x in (b"%d" % (v // 2), b"m%02d" % v)])
+            c.dump()
+        for _ in range(r.randrange(1, 5)):
+            m = pick(r, [b"a", b"A", b"m00", b"m01", b"m03", b"", b"x\r\ny"])
+            a = [randcase(r, b"zadd"), key]
+            for _ in range(r.choice([0, 0, 1, 1, 2])):
+                a.append(randcase(r, pick(r, [b"nx", b"xx", b"gt", b"lt", b"ch"])))
+            pairs = []
+            for _ in range(r.randrange(2, 5)):
+                pairs.append([score(r, "dyadic", special=0.1), m])
+            for _ in range(r.choice([0, 0, 1, 2])):
+                pairs.insert(r.randrange(len(pairs) + 1), [score(r, "dyadic", special=0.05), member(r, True)])
+            if r.random() < 0.15:
+                pairs.append([pairs[0][0], randcase(r, m)])      # same name in another letter case
+            for p in pairs:
+                a += p
+            c.cmd(a)
+            c.dump()
+            c.cmd([b"zrange", key, b"0", b"-1", b"withscores"])
+            c.cmd([b"zrank", key, m])
+        if r.random() < 0.5:
+            c.cmd([b"zrem", key, m, m])
+            c.dump()
+        cases.append(c)
+    return cases
+
+
+def _orders(r, n):
+    vals = list(range(n))
+    kind = r.choice(["asc", "desc", "rand", "rand", "inout", "evenodd"])
+    if kind == "desc":
+        vals.reverse()
+    elif kind == "rand":
+        r.shuffle(vals)
+    elif kind == "inout":
+        vals.sort(key=lambda v: abs(v - n // 2))
+    elif kind == "evenodd":
+        vals = vals[::2] + vals[1::2]
+    return vals
+
+
+def gen_deletions(seed, ncases):
+    """Trees of 8-64 distinct scores, then deletion sequences chosen to hit every case of deleteNode
+    (leaf, one child, two children whose successor is a leaf / has a right child / is the right
+    child itself) and every rebalancing case on the way back (single and double rotations, child
+    balance 0): delete in insertion order, in reverse, minimum / maximum repeatedly, from the middle
+    outwards, every second member, random permutations -- dumped after every deletion."""
+    r = random.Random(seed ^ 0xDE1E)
+    cases = []
+    for i in range(ncases):
+        c = Case("c12x_%d_%d" % (seed, i))
+        key = b"t"
+        n = r.choice([8, 9, 10, 11, 12, 13, 15, 16, 17, 20, 24, 31, 32, 33, 48, 64])
+        ins = _orders(r, n)
+        if r.random() < 0.5:
+            c.cmd([b"zadd", key] + [x for v in ins for x in (b"%d" % v, b"m%02d" % v)])
+            c.dump()
+        else:
+            for v in ins:
+                c.cmd([b"zadd", key, b"%d" % v, b"m%02d" % v])
+            c.dump()
+        kind = r.choice(["ins", "rev", "min", "max", "mid", "second", "rand", "rand", "rand"])
+        dels = list(range(n))
+        if kind == "ins":
+            dels = list(ins)
+        elif kind == "rev":
+            dels = list(reversed(ins))
+        elif kind == "max":
+            dels.reverse()
+        elif kind == "mid":
+            dels.sort(key=lambda v: abs(v - n // 2))
+        elif kind == "second":
+            dels = dels[1::2] + dels[::2]
+        elif kind == "rand":
+            r.shuffle(dels)
+        stop = n if r.random() < 0.6 else r.randrange(n // 2, n)
+        for j, v in enumerate(dels[:stop]):
+            c.cmd([b"zrem", key, b"m%02d" % v])
+            c.dump()
+            if r.random() < 0.1:
+                c.cmd([b"zrank", key, b"m%02d" % pick(r, dels)])
+            if r.random() < 0.05:
+                c.cmd([b"zadd", key, b"%d" % v, b"m%02d" % v])      # put it back, delete again later
+                c.dump()
+        c.cmd([b"zrange", key, b"0", b"-1", b"withscores"])
+        c.cmd([b"exists", key])
+        cases.append(c)
+    return cases
+
+
+def gen_delete_pairs(seed):
+    """Small-scope exhaustive: one tree of n in 8..13 scores (built by one ZADD in ascending order),
+    every single deletion and every ordered pair of deletions, dumped after each."""
+    r = random.Random(seed ^ 0x9A12)
+    n = r.randrange(8, 14)
+    build = [b"zadd", b"t"] + [x for v in range(n) for x in (b"%d" % v, b"m%02d" % v)]
+    cases = []
+    for a in range(n):
+        for b in range(n):
+            if a == b:
+                continue
+            c = Case("c12p_%d_%d_%d_%d" % (seed, n, a, b))
+            c.cmd(build)
+            c.cmd([b"zrem", b"t", b"m%02d" % a])
+            c.dump()
+            c.cmd([b"zrem", b"t", b"m%02d" % b])
+            c.dump()
+            cases.append(c)
+    return cases
+
+
 def gen_c12(seed, tier):
     if tier == "quick":
-        return gen_shapes(seed, 500) + gen_random(seed, 3500) + gen_ttl(seed, 250)
-    return gen_shapes(seed, 4000) + gen_random(seed, 24000, maxlen=60) + gen_ttl(seed, 2000)
+        return (gen_shapes(seed, 500) + gen_random(seed, 3500) + gen_ttl(seed, 250) + gen_dups(seed, 400)
+                + gen_deletions(seed, 300) + gen_delete_pairs(seed))
+    return (gen_shapes(seed, 4000) + gen_random(seed, 24000, maxlen=60) + gen_ttl(seed, 2000) + gen_dups(seed, 4000)
+            + gen_deletions(seed, 4000) + gen_delete_pairs(seed) + gen_delete_pairs(seed + 1) + gen_delete_pairs(seed + 2))
